@@ -45,3 +45,14 @@ package prom
 //@   loop 1
 //@     invariant -1 <= rangeindex && rangeindex < 4 && offered == rangeindex + 1 && !refused
 //@     decreases 4 - rangeindex
+
+// NewHandler: scrapes are answered by promhttp's own handler over the registry given - it gathers the
+// current values on every request (assumed library behaviour), and nothing stands between it and the scraper.
+//@ func NewHandler
+//@   property C20
+//@   requires [non-nil] r != nil
+//@   modifies nothing
+//@   ghost h ref = 0
+//@   before call HandlerFor: assert [gathers-from-the-registry-given] ref(arg0) == ref(r)
+//@   at call HandlerFor: ghost h = ref(result)
+//@   ensures [the-registry-handler-itself-answers-every-scrape] h != 0 && ref(result) == h
